@@ -96,6 +96,23 @@ def _batch(task):
         p = judge(k, dc[k], None, "compute_distances_core")
         if p:
             out.append((k, p))
+    # the same pair embedded in a longer pair list over a larger system (filler atoms far away), at a varying position, with
+    # int64 / int32 / list index types: the result must not depend on where a pair sits in the list or how many atoms there are
+    nfill = 5 + seed % 4
+    big = np.zeros((n, 3 + nfill, 3), dtype=np.float32)
+    slot = [(seed // 3) % (nfill + 1), nfill + 1 + (seed % 2)]          # where atoms 0 and 1 of the case go
+    rest = [k for k in range(3 + nfill) if k not in slot]
+    big[:, slot[0]] = t.xyz[:, 0]; big[:, slot[1]] = t.xyz[:, 1]
+    big[:, rest] = t.xyz[:, :1] + rs.randint(3, 9, size=(1, len(rest), 3)).astype(np.float32) * 0.37
+    tb = md.Trajectory(big, _top(3 + nfill)); tb.unitcell_vectors = box.astype(np.float32)
+    plist = [[int(a), int(b)] for a, b in rs.randint(0, 3 + nfill, size=(41, 2))]
+    pos = seed % 41
+    plist[pos] = [slot[0], slot[1]]
+    for arr in (np.array(plist, dtype=np.int64), np.array(plist, dtype=np.int32), plist):
+        db = md.compute_distances(tb, arr)[:, pos]
+        bad = np.where(np.abs(db - md.compute_distances(t, pairs)[:, 0]) > 2e-6 * (1 + db))[0]
+        for k in bad[:3]:
+            out.append((int(k), "the distance of a pair depends on its position in the pair list / the number of atoms"))
     multi = md.compute_distances(t, [[0, 1], [1, 0], [0, 1], [0, 2], [1, 1]])
     for k in range(n):
         if not (abs(multi[k, 0] - multi[k, 1]) < 1e-6 and multi[k, 0] == multi[k, 2]):
